@@ -587,7 +587,11 @@ func H_C10_Mix() { H_C06_Mix() }
 func pbC08(m pbMsg, nmax int) {
 	p := nondetBytes("p", nmax)
 	verifAllocLimit(8*len(p) + 64)
-	_ = m.Unmarshal(p)
+	err := m.Unmarshal(p)
+	if err == nil {
+		// differential clause, decided by the real reference runtime on the witness of every accepting path
+		verifAssertAgreesIfRefAccepts(m, p, "native: both the generated Unmarshal and the reference runtime accept the input, but decode different messages")
+	}
 	verifReach("end")
 }
 
@@ -613,3 +617,55 @@ func H_C08_Node()     { pbC08(&Node{}, c08N(5, 6)) }
 func H_C08_One()      { pbC08(&One{}, c08N(4, 6)) }
 func H_C08_Maps()     { pbC08(&Maps{}, c08N(4, 6)) }
 func H_C08_Mix()      { pbC08(&Mix{}, c08N(4, 6)) }
+
+
+// ======================================================================================================
+// C04/C05 on long values: the length prefix crosses the 1-byte / 2-byte boundary (127/128) for strings, bytes,
+// nested messages and map entries. Symbolic length up to 300, symbolic contents, no unrolling.
+
+func pbLong(name string) []byte { return nondetBytes(name, 300) }
+
+func H_C05_Long_String() {
+	m := &SString{F: string(pbLong("f"))}
+	pbC05(m, exp_SString(pbBuf(), m))
+}
+
+func H_C05_Long_Bytes() {
+	m := &SBytes{F: pbLong("f")}
+	pbC05(m, exp_SBytes(pbBuf(), m))
+}
+
+func H_C05_Long_Nested() {
+	m := &Msgs{M: &Leaf{A: 1, S: string(pbLong("s"))}}
+	pbC05(m, expMsgs(pbBuf(), m))
+}
+
+func H_C05_Long_Oneof() {
+	m := &One{C: &One_S{S: string(pbLong("s"))}}
+	pbC05(m, expOne(pbBuf(), m))
+}
+
+func H_C05_Long_MapEntry() {
+	v := string(pbLong("v"))
+	m := &Maps{Is: map[int32]string{7: v}}
+	ent := protowire.AppendVarint(protowire.AppendTag(make([]byte, 0, 400), 1, protowire.VarintType), 7)
+	ent = protowire.AppendString(protowire.AppendTag(ent, 2, protowire.BytesType), v)
+	pbC05(m, protowire.AppendBytes(protowire.AppendTag(pbBuf(), 2, protowire.BytesType), ent))
+}
+
+func H_C04_Long_String() { pbC04Long(&SString{F: string(pbLong("f"))}) }
+func H_C04_Long_Nested() { pbC04Long(&Msgs{M: &Leaf{A: 1, S: string(pbLong("s"))}}) }
+
+// pbC04 without the case split on Size(): the buffer has symbolic length
+func pbC04Long(m pbMsg) {
+	sz := m.Size()
+	verifAssume(sz >= 0)
+	verifAssume(sz <= 400)
+	buf := make([]byte, sz)
+	err := m.MarshalTo(buf)
+	verifAssert(err == nil, "MarshalTo into a buffer of Size() bytes succeeds")
+	out, err := m.Marshal()
+	verifAssert2(err == nil, len(out) == sz, "len(Marshal()) equals Size()")
+	verifAssertBytesEq(buf, out, "MarshalTo writes the bytes Marshal returns")
+	verifReach("end")
+}
